@@ -125,6 +125,10 @@ def main():
             cmd += ["-maxpaths", str(run["maxpaths"])]
         if run.get("args"):
             cmd += run["args"]
+        qlog = None
+        if tier == "thorough" or os.environ.get("VERIF_CROSSCHECK"):
+            qlog = os.path.join(ROOT, "bin", "qlog-%s-%s.smt2" % (pid, run["harness"]))
+            cmd += ["-qlog", qlog]
         t1 = time.time()
         r = sh(cmd, env=GOENV)
         if r.returncode != 0 or not os.path.exists(out):
@@ -144,6 +148,15 @@ def main():
         for c in run.get("covers", []):
             if not res.get("covers", {}).get(c):
                 errors.append("%s: reachability witness %r not reached (vacuity guard)" % (label, c))
+        xc = None
+        if qlog and os.path.exists(qlog):
+            # deciding queries re-submitted to two other solver builds
+            sys.path.insert(0, os.path.join(ROOT, "tools"))
+            import crosscheck
+            xc = crosscheck.run(qlog, 1500)
+            os.remove(qlog)
+            if xc["disagreements"]:
+                errors.append("%s: %d solver disagreements on deciding queries" % (label, xc["disagreements"]))
         q = res["queries"]
         nq = q["feasibility"] + q["assertion"] + q["enumeration"]
         tot["paths"] += res["paths"]
@@ -161,6 +174,7 @@ def main():
                         "inconclusive_feasibility_queries_branch_kept": res.get("inconclusive_feasibility_kept", 0),
                         "solver_time_s": round(res["solver_time_s"], 2),
                         "wall_s": round(time.time() - t1, 2),
+                        "crosscheck": xc,
                         "violations": [v["label"] for v in res.get("violations") or []]})
         # counterexamples: replay natively before believing them
         for n, v in enumerate(res.get("violations") or []):
